@@ -760,6 +760,15 @@ def last_cap_frac(r):
     return None
 
 
+def last_bound_step(r):
+    """bound step length of the last line search (from the decision log), None if not logged"""
+    for e in reversed(r.get("log") or []):
+        w = e.split("/")
+        if w[0] == "LS0" and len(w) == 8:
+            return bits(w[3])
+    return None
+
+
 def oracle_c19(c, r, err=""):
     """-> list of (signature, message)"""
     if r is None:
@@ -779,6 +788,8 @@ def oracle_c19(c, r, err=""):
         sig = "not-converged"
         if c["algo"] in FIRST_ORDER and st == 2 and r["nit"] >= 50 * n:
             sig = "first-order-budget-exhausted"                     # F-66
+        elif c["algo"] in FIRST_ORDER and st == 3 and last_bound_step(r) is not None and 0.0 < last_bound_step(r) < 1e-9:
+            sig = "line-search-stalled-next-to-face"                 # F-68
         elif c["algo"] in SECOND_ORDER and st == 3 and last_cap_frac(r) == 0.0:
             sig = "lm-stuck-free-variable-on-face"                   # F-67
         bad.append((sig, "status %s after %d iterations (budget 50*n = %d) on a strictly convex quadratic with "
